@@ -587,6 +587,9 @@ func c01Scenario(g c01Gen, dotu bool) Scenario {
 		}
 		res.Evals = int64(n)
 		res.Nontrivial = int64(ncase)
+		if res.Evals < res.Nontrivial {
+			res.Evals = res.Nontrivial
+		}
 		res.Bounds["full_product_"+name] = full
 		return res
 	}}
@@ -666,6 +669,9 @@ func c01StatScenario(dotu bool) Scenario {
 			}
 		})
 		res.Evals = int64(n)
+		if res.Evals < res.Nontrivial {
+			res.Evals = res.Nontrivial // enumProduct counts tuples, the callback counts the stat records they yield
+		}
 		// InitRread / SetRreadCount
 		for total := 0; total <= 24; total++ {
 			for cnt := 0; cnt <= total; cnt++ {
@@ -692,9 +698,49 @@ func c01StatScenario(dotu bool) Scenario {
 				}
 				res.Evals++
 				res.Nontrivial++
+				// every order of the two-step form with tag settings: the tag is set before
+				// the count, after it, or both; the count may be lowered a second time
+				for order := 0; order < 8; order++ {
+					before, after, twice := order&1 != 0, order&2 != 0, order&4 != 0
+					if twice && cnt == 0 {
+						continue
+					}
+					fc := go9p.NewFcall(uint32(11 + total))
+					if go9p.InitRread(fc, uint32(total)) != nil {
+						continue
+					}
+					for i := range fc.Data {
+						fc.Data[i] = byte(i*5 + total)
+					}
+					tag := uint16(wire.NOTAG)
+					if before {
+						tag = 0x1234
+						go9p.SetTag(fc, tag)
+					}
+					go9p.SetRreadCount(fc, uint32(cnt))
+					final := cnt
+					if twice {
+						final = cnt / 2
+						go9p.SetRreadCount(fc, uint32(final))
+					}
+					if after {
+						tag = 0x00fe
+						go9p.SetTag(fc, tag)
+					}
+					want := wire.Encode(&wire.Msg{Type: wire.Rread, Tag: tag, Data: d[:final]}, dotu)
+					if !bytes.Equal(fc.Pkt, want) || fc.Tag != tag || fc.Size != uint32(len(want)) || fc.Count != uint32(final) || !bytes.Equal(fc.Data, d[:final]) {
+						fail("C01/setrreadcount/order", fmt.Sprintf("InitRread(%d), tag before=%v, SetRreadCount(%d), again=%v, tag after=%v: packet % x (Tag %#x) want % x", total, before, cnt, twice, after, fc.Pkt, fc.Tag, want))
+					}
+					back, n, err := go9p.Unpack(append([]byte(nil), fc.Pkt...), dotu)
+					if err != nil || n != len(want) || back.Tag != tag || !bytes.Equal(back.Data, d[:final]) {
+						fail("C01/setrreadcount/decode", fmt.Sprintf("two-step Rread does not decode to what was built (err %v, consumed %d of %d)", err, n, len(want)))
+					}
+					res.Evals++
+					res.Nontrivial++
+				}
 			}
 		}
-		res.Samples = append(res.Samples, "PackDir/UnpackDir over the stat domains alone and in concatenations of up to 3; InitRread(n)+SetRreadCount(c) for all c<=n<=24")
+		res.Samples = append(res.Samples, "PackDir/UnpackDir over the stat domains alone and in concatenations of up to 3; InitRread(n)+SetRreadCount(c) for all c<=n<=24, in every order with SetTag before/after and a second lower count")
 		return res
 	}}
 }
